@@ -1519,7 +1519,9 @@ func buildSelectFieldsWithExpressions(fields []Field) (
 		if t != "" {
 			// Check if this is a multi-parameter function that needs special handling
 			isMultiParamFunction := false
-			if expression != "" && strings.Contains(expression, ",") {
+			// Only when the call is the whole item: in "round(x, 1) + y" the leading
+			// call is an operand, and the item is an ordinary expression.
+			if expression != "" && strings.Contains(expression, ",") && callSpansExpression(f.Expression) {
 				// Check if the function needs multi-parameter handling
 				funcName := extractFunctionName(f.Expression)
 				if fn, exists := functions.Get(funcName); exists {
@@ -1595,6 +1597,17 @@ func buildSelectFieldsWithExpressions(fields []Field) (
 		}
 	}
 	return selectFields, fieldMap, expressions, postAggExpressions, nil
+}
+
+// callSpansExpression reports whether expr is a single function call from its first
+// to its last byte: "round(x, 1)" is, "round(x, 1) + y" is not.
+func callSpansExpression(expr string) bool {
+	trimmed := strings.TrimSpace(expr)
+	open := strings.Index(trimmed, "(")
+	if open <= 0 {
+		return false
+	}
+	return findMatchingParenInternal(trimmed, open) == len(trimmed)-1
 }
 
 // stripEnclosingParens removes pairs of parentheses that enclose the whole expression:
